@@ -18,6 +18,7 @@ package adam
 
 /* -------------------------------------------------------------------------- */
 
+import "github.com/pbenner/autodiff/verifhook"
 import   "fmt"
 import   "math"
 
@@ -95,6 +96,7 @@ func adam(f func(ConstVector) (MagicScalar, error), x0 ConstVector, step_size, b
     return x1, fmt.Errorf("invalid initial value: %v", x1)
   }
   for i_ := 0; i_ < maxIterations.Value; i_++ {
+    verifhook.Tick("adam.iter")
     // evaluate objective function
     if err := x2.Variables(1); err != nil {
       return nil, err
